@@ -3,10 +3,10 @@ import EupsModel.Lemmas.SetupForward
 namespace EupsModel.Setup
 
 theorem canon_deps_rank (db : Db) (rank : Name → Nat) (hdag : NameDag db rank) (d : Decl) (hc : Canon db d)
-    (exact : Bool) : ∀ n o j v x, Act.dep n o j v x ∈ d.actions exact → rank n < rank d.name := by
-  intro n o j v x hm
+    (exact : Bool) : ∀ n o j v x t, Act.dep n o j v x t ∈ d.actions exact → rank n < rank d.name := by
+  intro n o j v x t hm
   obtain ⟨g, hg⟩ := mem_actions d exact _ hm
-  exact hdag d (lookup_some db d.prod d hc).1 g n o j v x hg
+  exact hdag d (lookup_some db d.prod d hc).1 g n o j v x t hg
 
 @[simp] theorem record_rec?_same (d : Decl) (r : Option VroEnt) (s : St) : (record d r s).env.rec? d.name = some d.ver := by
   simp [record, Env.rec?, aget_aset_same]
@@ -58,6 +58,66 @@ theorem record_spec (cfg : Cfg) (d : Decl) (r : Option VroEnt) (s : St) (hw : We
     rcases hdirs n _ hm with ⟨hnd, he⟩ | h
     · simp at he; rw [he.1, hnd]; rfl
     · exact hw.dirs n p rel h
+
+/-- the same when the name has a record that names an undeclared version (`findSetupProduct` finds nothing):
+nothing in a residue-free, well-owned environment belongs to such a record -/
+theorem record_spec_gen (cfg : Cfg) (d : Decl) (reason : Option VroEnt) (s : St) (hw : WellOwned cfg s.env)
+    (hn : NoResidue Empty s.env) (hsp : setupProd cfg.db s.env d.name = none) :
+    NoResidue Empty (record d reason s).env ∧ WellOwned cfg (record d reason s).env := by
+  have hnone : s.env.rec? d.name = none ∨ ∃ v, s.env.rec? d.name = some v ∧ cfg.db.lookup (d.name, v) = none := by
+    unfold setupProd at hsp
+    split at hsp
+    · rename_i v hv; exact Or.inr ⟨v, hv, hsp⟩
+    · rename_i hv; exact Or.inl hv
+  rcases hnone with hnone | ⟨v, hv, hlk⟩
+  · exact record_spec cfg d reason s hw hn hnone
+  · have hnoelem : ∀ p : Prod, p.1 = d.name → s.env.rec? p.1 = some p.2 → tableOf cfg p = [] := by
+      intro p hp hr
+      rw [hp, hv] at hr
+      have : p = (d.name, v) := by
+        cases p; simp at hp hr; simp [hp, hr]
+      unfold tableOf; rw [this, hlk]
+    have key : ∀ p : Prod, (Empty p ∨ s.env.rec? p.1 = some p.2) → tableOf cfg p ≠ [] →
+        Empty p ∨ (record d reason s).env.rec? p.1 = some p.2 := by
+      intro p hp hne
+      rcases hp with hp | hp
+      · exact absurd hp (by simp [Empty])
+      · right
+        by_cases hpn : p.1 = d.name
+        · exact absurd (hnoelem p hpn hp) hne
+        · rw [record_rec?_other d reason s p.1 hpn]; exact hp
+    have hdirs : ∀ n x, aget (record d reason s).env.dirs n = some x →
+        (n = d.name ∧ x = .own d.prod []) ∨ (n ≠ d.name ∧ aget s.env.dirs n = some x) := by
+      intro n x h
+      by_cases hnd : n = d.name
+      · subst hnd
+        simp [record, aget_aset_same] at h
+        exact Or.inl ⟨rfl, h.symm⟩
+      · simp only [record] at h
+        rw [aget_aset_other _ _ _ _ hnd] at h; exact Or.inr ⟨hnd, h⟩
+    constructor
+    · refine ⟨?_, ?_, ?_⟩
+      · intro var p rel hm
+        obtain ⟨vals, app, hline, _⟩ := hw.path var p rel hm
+        exact key p (hn.path var p rel hm) (by intro e; rw [e] at hline; cases hline)
+      · intro var p rel hm
+        have hline := hw.vars var p rel hm
+        exact key p (hn.vars var p rel hm) (by intro e; rw [e] at hline; cases hline)
+      · intro n p rel hm
+        rcases hdirs n _ hm with ⟨_, he⟩ | ⟨hnd, h0⟩
+        · right
+          simp at he
+          rw [he.1]; exact record_rec?_same d reason s
+        · have hpn : p.1 = n := hw.dirs n p rel h0
+          rcases hn.dirs n p rel h0 with hp | hp
+          · exact absurd hp (by simp [Empty])
+          · right
+            rw [record_rec?_other d reason s p.1 (by rw [hpn]; exact hnd)]; exact hp
+    · refine ⟨hw.path, hw.vars, ?_⟩
+      intro n p rel hm
+      rcases hdirs n _ hm with ⟨hnd, he⟩ | ⟨_, h0⟩
+      · simp at he; rw [he.1, hnd]; rfl
+      · exact hw.dirs n p rel h0
 
 section Generic
 variable (cfg : Cfg) (rank : Name → Nat) (hdag : NameDag cfg.db rank) (rec : Rec) (hrec : RecOK cfg rank rec)
@@ -154,67 +214,10 @@ theorem install_spec (depth : Nat) (noRec : Bool) (vro : List VroEnt) (d : Decl)
   | none =>
     rw [hsp] at h
     simp only at h
-    have hnone : s.env.rec? d.name = none ∨ ∃ v, s.env.rec? d.name = some v ∧ cfg.db.lookup (d.name, v) = none := by
-      unfold setupProd at hsp
-      split at hsp
-      · rename_i v hv; exact Or.inr ⟨v, hv, hsp⟩
-      · rename_i hv; exact Or.inl hv
-    rcases hnone with hnone | ⟨v, hv, hlk⟩
-    · exact tail s ha hw hn hnone h
-    · -- a record naming an undeclared version: nothing in a residue-free, well-owned environment belongs to it
-      have hw' : WellOwned cfg s.env := hw
-      have hnoelem : ∀ p : Prod, p.1 = d.name → s.env.rec? p.1 = some p.2 → tableOf cfg p = [] := by
-        intro p hp hr
-        rw [hp, hv] at hr
-        have : p = (d.name, v) := by
-          cases p; simp at hp hr; simp [hp, hr]
-        unfold tableOf; rw [this, hlk]
-      -- build the invariants for the recorded state directly
-      have key : ∀ p : Prod, (Empty p ∨ s.env.rec? p.1 = some p.2) → tableOf cfg p ≠ [] →
-          Empty p ∨ (record d reason s).env.rec? p.1 = some p.2 := by
-        intro p hp hne
-        rcases hp with hp | hp
-        · exact absurd hp (by simp [Empty])
-        · right
-          by_cases hpn : p.1 = d.name
-          · exact absurd (hnoelem p hpn hp) hne
-          · rw [record_rec?_other d reason s p.1 hpn]; exact hp
-      have hdirs : ∀ n x, aget (record d reason s).env.dirs n = some x →
-          (n = d.name ∧ x = .own d.prod []) ∨ (n ≠ d.name ∧ aget s.env.dirs n = some x) := by
-        intro n x h
-        by_cases hnd : n = d.name
-        · subst hnd
-          simp [record, aget_aset_same] at h
-          exact Or.inl ⟨rfl, h.symm⟩
-        · simp only [record] at h
-          rw [aget_aset_other _ _ _ _ hnd] at h; exact Or.inr ⟨hnd, h⟩
-      have hn2 : NoResidue Empty (record d reason s).env := by
-        refine ⟨?_, ?_, ?_⟩
-        · intro var p rel hm
-          obtain ⟨app, hline⟩ := hw.path var p rel hm
-          exact key p (hn.path var p rel hm) (by intro e; rw [e] at hline; cases hline)
-        · intro var p rel hm
-          have hline := hw.vars var p rel hm
-          exact key p (hn.vars var p rel hm) (by intro e; rw [e] at hline; cases hline)
-        · intro n p rel hm
-          rcases hdirs n _ hm with ⟨_, he⟩ | ⟨hnd, h0⟩
-          · right
-            simp at he
-            rw [he.1]; exact record_rec?_same d reason s
-          · have hpn : p.1 = n := hw.dirs n p rel h0
-            rcases hn.dirs n p rel h0 with hp | hp
-            · exact absurd hp (by simp [Empty])
-            · right
-              rw [record_rec?_other d reason s p.1 (by rw [hpn]; exact hnd)]; exact hp
-      have hw2 : WellOwned cfg (record d reason s).env := by
-        refine ⟨hw.path, hw.vars, ?_⟩
-        intro n p rel hm
-        rcases hdirs n _ hm with ⟨hnd, he⟩ | ⟨_, h0⟩
-        · simp at he; rw [he.1, hnd]; rfl
-        · exact hw.dirs n p rel h0
-      exact acts_true_spec cfg rank rec hrec depth noRec vro d (d.actions cfg.exact)
-        (canon_deps_rank cfg.db rank hdag d hc cfg.exact) (fun a hm => by rw [tableOf_canon cfg d hc]; exact hm)
-        _ s' (alreadyOK_aset cfg.db _ ha d reason hc) hw2 hn2 (record_rec?_same d reason s) h
+    obtain ⟨hn2, hw2⟩ := record_spec_gen cfg d reason s hw hn hsp
+    exact acts_true_spec cfg rank rec hrec depth noRec vro d (d.actions cfg.exact)
+      (canon_deps_rank cfg.db rank hdag d hc cfg.exact) (fun a hm => by rw [tableOf_canon cfg d hc]; exact hm)
+      _ s' (alreadyOK_aset cfg.db _ ha d reason hc) hw2 hn2 (record_rec?_same d reason s) h
   | some sd =>
     rw [hsp] at h
     simp only at h
@@ -397,16 +400,16 @@ namespace EupsModel.Setup
 def nameDagB (db : Db) (rank : Name → Nat) : Bool :=
   db.decls.all fun d => d.table.all fun ga =>
     match ga.2 with
-    | .dep n _ _ _ _ => decide (rank n < rank d.name)
+    | .dep n _ _ _ _ _ => decide (rank n < rank d.name)
     | _ => true
 
 theorem nameDag_of_check (db : Db) (rank : Name → Nat) (h : nameDagB db rank = true) : NameDag db rank := by
-  intro d hd g n o j v x hg
+  intro d hd g n o j v x t hg
   unfold nameDagB at h
   rw [List.all_eq_true] at h
   have h1 := h d hd
   rw [List.all_eq_true] at h1
-  have h2 := h1 (g, Act.dep n o j v x) hg
+  have h2 := h1 (g, Act.dep n o j v x t) hg
   simpa using h2
 
 end EupsModel.Setup
